@@ -89,6 +89,21 @@ pub fn render_node(
     };
     transform = transform.pre_concat(ancestors_ts);
 
+    #[cfg(resvg_verif)]
+    crate::verif::log(|| {
+        format!(
+            "export_ts {:08x} {:08x} {:08x} {:08x} {:08x} {:08x} bbox {:08x} {:08x}",
+            transform.sx.to_bits(),
+            transform.ky.to_bits(),
+            transform.kx.to_bits(),
+            transform.sy.to_bits(),
+            transform.tx.to_bits(),
+            transform.ty.to_bits(),
+            bbox.x().to_bits(),
+            bbox.y().to_bits()
+        )
+    });
+
     let ctx = render::Context { max_bbox };
     render::render_node(node, &ctx, transform, pixmap);
 
